@@ -4,6 +4,8 @@ CONSTANTS
   Ratios <- AllRatios
   OffsetIds <- AllOffsets
   MaxVec = 8
+  NSteps = 3
+  Patterns = {"all", "all", "late", "stale1", "gap", "last"}
   EmitMode = "none"
-INVARIANTS TypeOK Partition Monotone PrefixExact EmitWalk
+INVARIANTS TypeOK Partition Monotone PrefixExact StepIndependent EmitWalk
 CHECK_DEADLOCK FALSE
